@@ -149,6 +149,11 @@ Lemma events_fallback dt dop f o t op :
   let op' := match op with Some v => v | None => dop end in
   (event_of op' t' f, event_of op' t' o).
 Proof. destruct t, op; reflexivity. Qed.
+(* the constructor keeps the defaults it is given (0 included); only a missing argument takes the documented default *)
+Lemma constructor_keeps_defaults (t : xv) (op : cmpop) :
+  gen_init_event_threshold (Some t) = t /\ gen_init_op_fn (Some op) = op /\
+  gen_init_event_threshold None = XFin (1 # 1000) /\ gen_init_op_fn None = OpGe.
+Proof. repeat split; reflexivity. Qed.
 Lemma event_tables_same dt dop f o t op :
   gen_make_event_tables dt dop f o t op = gen_make_contingency_manager dt dop f o t op.
 Proof. destruct t, op; reflexivity. Qed.
